@@ -158,12 +158,12 @@ func (e *Executor) RunTask(ctx context.Context, call *Call) error {
 	defer release()
 	defer verifhook.Ev(ctx, "release")
 
-	return e.startExecution(ctx, t, func(ctx context.Context) error {
+	err = e.startExecution(ctx, t, func(ctx context.Context) error {
 		e.Logger.VerboseErrf(logger.Magenta, "task: %q started\n", call.Task)
 		if err := e.runDeps(ctx, t); err != nil {
 			verifhook.Ev(ctx, "depsDone", verifhook.ErrClass(err))
-			if _, isExitError := interp.IsExitStatus(err); isExitError && !call.Indirect {
-				return &errors.TaskRunError{TaskName: t.Task, Err: err}
+			if _, isExitError := interp.IsExitStatus(err); isExitError {
+				return &taskFailure{err}
 			}
 			return err
 		}
@@ -261,17 +261,31 @@ func (e *Executor) RunTask(ctx context.Context, call *Call) error {
 					deferredExitCode = exitCode
 				}
 
-				if call.Indirect {
-					return err
-				}
-
-				return &errors.TaskRunError{TaskName: t.Task, Err: err}
+				return &taskFailure{err}
 			}
 		}
 		e.Logger.VerboseErrf(logger.Magenta, "task: %q finished\n", call.Task)
 		return nil
 	})
+
+	// The execution may be shared by several callers (run: once/when_changed):
+	// each of them reports the failure according to how it was called itself.
+	if failure, ok := err.(*taskFailure); ok {
+		if call.Indirect {
+			return failure.err
+		}
+		return &errors.TaskRunError{TaskName: t.Task, Err: failure.err}
+	}
+	return err
 }
+
+// taskFailure is what the execution of a task's dependencies and commands
+// ends with when one of them failed. It never leaves RunTask.
+type taskFailure struct {
+	err error
+}
+
+func (f *taskFailure) Error() string { return f.err.Error() }
 
 func (e *Executor) mkdir(t *ast.Task) error {
 	if t.Dir == "" {
